@@ -21,6 +21,19 @@ inline void check_const_pointer_modification(Interpreter &interpreter,
 }
 
 /**
+ * ポインタの指し先が const 構造体の場合、ptr->member = value や
+ * (*ptr).member = value を禁止する（スカラーの *ptr = value と同じ規則）。
+ * f(&const_struct) のように const T* でないパラメータに渡された場合も、
+ * 指し先オブジェクト自体の const を見て書き込みを拒否する。
+ */
+inline void check_const_struct_pointee(const Variable *pointee) {
+    if (pointee && pointee->is_struct && pointee->is_const) {
+        throw std::runtime_error(
+            "Cannot modify const variable through pointer");
+    }
+}
+
+/**
  * constポインタ自体への再代入をチェック
  * T* const ptr の場合、ptr = ... を禁止する
  */
